@@ -261,6 +261,21 @@ class C17(Check):
                        outcome='identity' if np.array_equal(m, eye) else 'rotation')
                 if sig:
                     R.violation(sig, d, det)
+        # the caller does what it likes with ITS matrices (here: scales them in place); asking for the same rotation
+        # again gives the same matrix as the first time
+        if 'b' not in case:
+            for ia in single:
+                try:
+                    if isinstance(raw[ia], np.ndarray):
+                        raw[ia] *= 2.0
+                    again = np.array(rotation_matrix(shared_axis, angs[ia]), float)
+                except Exception as exc:
+                    R.violation('rotation_matrix/exception', dict(case, a=ia), repr(exc))
+                    break
+                if not np.array_equal(again, mats[ia]):
+                    R.violation('rotation_matrix/same-arguments-another-matrix-after-the-caller-edited-its-copy',
+                                dict(case, a=ia), float(np.abs(again - mats[ia]).max()))
+                    break
         for vecs, snap in held:
             if any(not np.array_equal(np.asarray(v, float), w) for v, w in zip(vecs, snap)):
                 R.violation('calcule_base/frame-returned-earlier-changed-by-later-calls', dict(case),
